@@ -156,6 +156,8 @@ class Norm:
                 arg = strip(base[2]) if len(base) > 2 else None
                 if arg is not None and arg[0] in ('multi', 'opq') and path[:1] == (('as', 1),) and path[1:2] == (0,):
                     return self.item(arg[1], path[2:])
+            if base[0] == 'call' and base[1].split('#')[0].endswith('Try>::branch') and path[:2] == (('as', 0), 0) and len(base) == 3:
+                return wrap(('f', 'try', self.n(base[2])), self.npath(path[2:]))          # `x?`
             return wrap(self.n(base), self.npath(path))
         if k == 'op':
             a, b = self.n(e[2]), self.n(e[3])
@@ -169,9 +171,9 @@ class Norm:
             op = call_op(n)
             if op in ('Mul', 'Add', 'Sub', 'Div') and len(args) == 2: return self.op(op, args[0], args[1])
             if op is not None: return ('f', op) + tuple(args)
+            if ('ops::Index<' in n and n.endswith('::index') or 'ops::IndexMut<' in n and n.endswith('::index_mut')) and len(args) == 2:
+                return ('slice', args[0], args[1])
             if any(s in n for s in IDENTITY_CALLS) and len(args) >= 1:
-                if ('Index<I>>::index' in n or 'IndexMut<I>>::index_mut' in n) and len(args) == 2:
-                    return ('slice', args[0], args[1])
                 return args[0]
             short = n.split('>::')[-1] if '>::' in n else n.split('::')[-1]
             return ('f', short) + tuple(args)
@@ -192,12 +194,15 @@ class Norm:
         if name in ('Add', 'AddUnchecked', 'AddWithOverflow'): return mk_add([a, b])
         if name in ('Mul', 'MulUnchecked', 'MulWithOverflow'): return mk_mul([a, b])
         if name in ('Sub', 'SubUnchecked', 'SubWithOverflow'):
-            if b[0] == 'c' and isinstance(b[1], int) and not isinstance(b[1], bool): return mk_add([a, ('c', -b[1])])
-            return ('f', 'Sub', a, b)
+            return mk_add([a, mk_mul([('c', -1), b])])          # a - b as a sum (polynomial normal form; overflow is the panic inventory's business)
         if name == 'Div':
             if b[0] == 'c' and isinstance(b[1], float) and b[1] != 0 and is_pow2(b[1]): return mk_mul([a, ('c', 1.0 / b[1])])
             return ('f', 'Div', a, b)
         if name == 'Shl' and b[0] == 'c' and isinstance(b[1], int): return mk_mul([a, ('c', 1 << b[1])])
+        if name == 'Shr' and b[0] == 'c' and isinstance(b[1], int): return ('f', 'Div', a, ('c', 1 << b[1]))      # operands here are unsigned sizes / indices
+        if name == 'BitAnd':
+            for x, y in ((a, b), (b, a)):
+                if y[0] == 'c' and isinstance(y[1], int) and y[1] > 0 and (y[1] & (y[1] + 1)) == 0: return ('f', 'Rem', x, ('c', y[1] + 1))
         if name in ('BitOr', 'BitAnd', 'BitXor', 'Eq', 'Ne'):
             x, y = sorted((a, b), key=repr)
             return ('f', name, x, y)
@@ -236,16 +241,36 @@ def wrap(base, path):
     return cur
 
 
+def _mono(a):
+    """(coefficient, monomial key) of a summand"""
+    if a[0] == '*':
+        cs = [x for x in a[1:] if x[0] == 'c' and isinstance(x[1], (int, float)) and not isinstance(x[1], bool)]
+        rest = tuple(x for x in a[1:] if x not in cs)
+        c = 1
+        for x in cs: c = c * x[1]
+        return c, rest
+    return 1, (a,)
+
+
 def mk_add(args):
     flat = []
     c = 0
     for a in args:
         if a[0] == '+': flat.extend(a[1:])
         else: flat.append(a)
-    out = []
+    monos = {}
+    order = []
     for a in flat:
-        if a[0] == 'c' and isinstance(a[1], (int, float)) and not isinstance(a[1], bool): c += a[1]
-        else: out.append(a)
+        if a[0] == 'c' and isinstance(a[1], (int, float)) and not isinstance(a[1], bool): c += a[1]; continue
+        k, m = _mono(a)
+        if m not in monos: monos[m] = 0; order.append(m)
+        monos[m] += k
+    out = []
+    for m in order:
+        k = monos[m]
+        if k == 0: continue
+        if k == 1: out.append(m[0] if len(m) == 1 else ('*',) + tuple(sorted(m, key=repr)))
+        else: out.append(('*',) + tuple(sorted(m, key=repr)) + (('c', k),))
     out.sort(key=repr)
     if c != 0 or not out: out.append(('c', c))
     return out[0] if len(out) == 1 else ('+',) + tuple(out)
@@ -256,6 +281,11 @@ def mk_mul(args):
     for a in args:
         if a[0] == '*': flat.extend(a[1:])
         else: flat.append(a)
+    # distribute over sums: polynomials become sums of monomials
+    for i, a in enumerate(flat):
+        if a[0] == '+':
+            rest = flat[:i] + flat[i + 1:]
+            return mk_add([mk_mul([x] + rest) for x in a[1:]])
     ci = 1; cf = 1.0; isf = False; out = []
     for a in flat:
         if a[0] == 'c' and isinstance(a[1], int) and not isinstance(a[1], bool): ci *= a[1]
@@ -265,9 +295,15 @@ def mk_mul(args):
     if isf:
         c = cf * ci
         if c != 1.0 or not out: out.append(('c', c))
+    elif ci == 0:
+        return ('c', 0)
     elif ci != 1 or not out:
         out.append(('c', ci))
     return out[0] if len(out) == 1 else ('*',) + tuple(out)
+
+
+def mk_sub(a, b):
+    return mk_add([a, mk_mul([('c', -1), b])])
 
 
 def show(t):
